@@ -1,3 +1,5 @@
+//go:build verif
+
 package main
 
 // Component `asttrace` (C05 (a), the tie between the PARSER and the C13 refinement theorem).
